@@ -198,6 +198,19 @@ class Evaluator:
         self.env = dict(env)
         self.folder = folder
 
+    def cval(self, e: ast.AST) -> Optional[int]:
+        """a constant by folding, or by evaluation in the current environment (`32 - self.num_tag_bits` after `self.num_tag_bits = 20`)"""
+        c = self.const(e)
+        if c is not None:
+            return c
+        if isinstance(e, ast.Constant):
+            return None
+        try:
+            f = self.ev(e)
+        except Inconclusive:
+            return None
+        return f.const if f.is_const() else None
+
     # (module-level helper below: arithmetic over integer literals only, e.g. `1 << 4`)
     def const(self, e: ast.AST) -> Optional[int]:
         if self.folder is None:
@@ -232,12 +245,12 @@ class Evaluator:
                     return self.ev(e.right).and_mask(cl)
                 raise Inconclusive("& of two non-constants")
             if isinstance(op, ast.RShift):
-                cr = self.const(e.right)
+                cr = self.cval(e.right)
                 if cr is None or cr < 0:
                     raise Inconclusive(">> by a non-constant")
                 return self.ev(e.left).rshift(cr)
             if isinstance(op, ast.LShift):
-                cr = self.const(e.right)
+                cr = self.cval(e.right)
                 if cr is None or cr < 0:
                     raise Inconclusive("<< by a non-constant")
                 return self.ev(e.left).lshift(cr)
@@ -249,12 +262,12 @@ class Evaluator:
                     return self.ev(e.right).scale(cl)
                 raise Inconclusive("* of two non-constants")
             if isinstance(op, ast.FloorDiv):
-                cr = self.const(e.right)
+                cr = self.cval(e.right)
                 if cr is not None and cr > 0 and cr & (cr - 1) == 0:
                     return self.ev(e.left).rshift(cr.bit_length() - 1)
                 raise Inconclusive("// by a non power of two")
             if isinstance(op, ast.Mod):
-                cr = self.const(e.right)
+                cr = self.cval(e.right)
                 if cr is not None and cr > 0 and cr & (cr - 1) == 0:
                     return self.ev(e.left).and_mask(cr - 1)
                 raise Inconclusive("% by a non power of two")
